@@ -6,6 +6,8 @@ Proofs/PdaEps.lean — C02, round 2.
   the converse of the one-move relation is well founded (lexicographic: unread input, then the
   λ-move order) and the tree is finitely branching (`_get_next_configurations` returns a finite
   set), so every configuration has a bound on the length of the runs leaving it.
+* per word the condition is also necessary: the runs from `c₀` die out iff no configuration
+  reachable from `c₀` starts an infinite λ-sequence (`NPDA.dies_out_iff`, `DPDA.dies_out_iff`).
 * a sufficient condition used for the non-vacuity examples (`epsTerminates_of_measure`,
   `NPDA.epsTerminates_of_lambda_pops`, `DPDA.epsTerminates_of_lambda_pops`).
 * the move relations stated by membership only (`NPDA.movesMem`, `DPDA.movesMem`,
@@ -89,6 +91,52 @@ theorem acc_step_of_epsTerminates {Δ : Moves σ α γ} (h : EpsTerminates Δ) :
   intro c
   exact main _ c rfl
 
+/-- The same on a set of configurations closed under moves (e.g. those reachable from a start
+configuration): it is enough that no *such* configuration starts an infinite λ-sequence. -/
+theorem acc_step_of_eps_on {Δ : Moves σ α γ} (P : Config σ α γ → Prop)
+    (hP : ∀ c c', P c → Step Δ c c' → P c')
+    (h : ∀ c, P c → Acc (fun c' c => EpsStep Δ c c') c) :
+    ∀ c, P c → Acc (fun c' c => Step Δ c c') c := by
+  have main : ∀ n, ∀ c : Config σ α γ, P c → c.input.length = n → Acc (fun c' c => Step Δ c c') c := by
+    intro n
+    induction n using Nat.strongRecOn with
+    | _ n ih =>
+      intro c hc
+      have hacc := h c hc
+      induction hacc with
+      | intro c _ ih2 =>
+        intro hn
+        constructor
+        intro c' hs
+        rcases step_read_or_eps hs with hlt | he
+        · exact ih c'.input.length (hn ▸ hlt) c' (hP c c' hc hs) rfl
+        · exact ih2 c' he (hP c c' hc hs) (by rw [he.input_eq, hn])
+  intro c hc
+  exact main _ c hc rfl
+
+/-- Conversely, if some level of the run tree from `c₀` is empty, no configuration reachable
+from `c₀` starts an infinite sequence of λ-moves. -/
+theorem acc_eps_of_dies_out {Δ : Moves σ α γ} {c₀ : Config σ α γ} {K : Nat}
+    (hK : ∀ c, ¬ StepN Δ K c₀ c) :
+    ∀ k c, StepN Δ k c₀ c → Acc (fun c' c => EpsStep Δ c c') c := by
+  have main : ∀ n k c, StepN Δ k c₀ c → K - k ≤ n → Acc (fun c' c => EpsStep Δ c c') c := by
+    intro n
+    induction n with
+    | zero =>
+      intro k c hc hle
+      exact absurd hc (stepN_none_mono hK (by omega) c)
+    | succ n ih =>
+      intro k c hc hle
+      constructor
+      intro c' he
+      have hlt : k < K := by
+        rcases Nat.lt_or_ge k K with h | h
+        · exact h
+        · exact absurd hc (stepN_none_mono hK h c)
+      exact ih (k + 1) c' (.succ hc he.step) (by omega)
+  intro k c hc
+  exact main (K - k) k c hc (Nat.le_refl _)
+
 /-! ### finite branching + well-foundedness ⇒ bounded depth -/
 
 /-- A finitely branching move relation whose converse is accessible at `c₀` has an empty level:
@@ -130,6 +178,19 @@ theorem NPDA.dies_out (M : NPDA σ α γ) (h : EpsTerminates M.moves) (c₀ : Co
   dies_out_of_acc M.nextConfigs (fun c c' s => (M.mem_nextConfigs c c').mpr s)
     (acc_step_of_epsTerminates h c₀)
 
+/-- **NPDA, per start configuration**: all runs from `c₀` die out exactly when no configuration
+reachable from `c₀` starts an infinite sequence of λ-moves. -/
+theorem NPDA.dies_out_iff (M : NPDA σ α γ) (c₀ : Config σ α γ) :
+    (∃ k, ∀ c, ¬ StepN M.moves k c₀ c) ↔
+      ∀ k c, StepN M.moves k c₀ c → Acc (fun c' c => EpsStep M.moves c c') c := by
+  constructor
+  · rintro ⟨K, hK⟩
+    exact acc_eps_of_dies_out hK
+  · intro h
+    exact dies_out_of_acc M.nextConfigs (fun c c' s => (M.mem_nextConfigs c c').mpr s)
+      (acc_step_of_eps_on (fun c => ∃ k, StepN M.moves k c₀ c)
+        (fun _ _ ⟨k, hk⟩ s => ⟨k + 1, .succ hk s⟩) (fun c ⟨k, hk⟩ => h k c hk) c₀ ⟨0, .zero _⟩)
+
 theorem DPDA.lift_moves_eq (M : DPDA σ α γ) : M.lift.moves = M.moves := by
   funext q a X p push
   exact propext (M.lift_moves q a X p push)
@@ -138,6 +199,12 @@ theorem DPDA.lift_moves_eq (M : DPDA σ α γ) : M.lift.moves = M.moves := by
 theorem DPDA.dies_out (M : DPDA σ α γ) (h : EpsTerminates M.moves) (c₀ : Config σ α γ) :
     ∃ k, ∀ c, ¬ StepN M.moves k c₀ c := by
   have := M.lift.dies_out (by rw [M.lift_moves_eq]; exact h) c₀
+  rwa [M.lift_moves_eq] at this
+
+theorem DPDA.dies_out_iff (M : DPDA σ α γ) (c₀ : Config σ α γ) :
+    (∃ k, ∀ c, ¬ StepN M.moves k c₀ c) ↔
+      ∀ k c, StepN M.moves k c₀ c → Acc (fun c' c => EpsStep M.moves c c') c := by
+  have := M.lift.dies_out_iff c₀
   rwa [M.lift_moves_eq] at this
 
 /-! ### a sufficient condition -/
